@@ -50,7 +50,7 @@ MANIFEST = {
 
 IMPORTS = ["Model.TriggerDef", "gen.Trigger_gen", "Model.Trigger", "Model.Cron"]
 KINDS = ["event", "status", "result", "exception", "cron"]
-STATUS_CODES = {"RUNNING": 0, "RETRY": 1}
+STATUSES = ["RUNNING", "RETRY", "SUCCESS", "FAILED"]      # what the status conditions watch; o_aux of a status occurrence
 _EXC_CACHE: dict = {}
 
 
@@ -97,12 +97,14 @@ def patch_clock():
 class TrigWorld:
     """One real app (mem or sqlite) with the triggers of a configuration registered."""
 
-    def __init__(self, kind: str, scratch: str, trigs: list[dict], app_id: str | None = None, register: bool = True):
+    def __init__(self, kind: str, scratch: str, trigs: list[dict], app_id: str | None = None, register: bool = True,
+                 batch: int | None = None):
         from harness import tasks_c13 as T
         from pynenc.invocation.status import InvocationStatus
         from pynenc.trigger.trigger_builder import TriggerBuilder
         self.kind = kind
-        self.app = world.make_app(kind, scratch, app_id=app_id)
+        custom = {} if batch is None else {"max_events_batch_size": batch}     # a trigger configuration value
+        self.app = world.make_app(kind, scratch, app_id=app_id, **custom)
         self.trg = self.app.trigger
         self.targets = [self.app.task(f) for f in (T.target, T.target_b, T.target_c)]
         self.sources = [self.app.task(f) for f in (T.source, T.source_b)]
@@ -121,7 +123,7 @@ class TrigWorld:
                     if k == 0:
                         b.on_event(f"e{idx}")
                     elif k == 1:
-                        b.on_status(self.sources[idx], [InvocationStatus.RUNNING, InvocationStatus.RETRY])
+                        b.on_status(self.sources[idx], [InvocationStatus[x] for x in STATUSES])
                     elif k == 2:
                         b.on_any_result(self.sources[idx])
                     elif k == 3:
@@ -167,8 +169,7 @@ class TrigWorld:
             self.trg.emit_event(f"e{idx}", {"n": o["n"]})
         elif k == 1:
             inv = self.invocation(idx, o["src"])
-            st = [InvocationStatus.RUNNING, InvocationStatus.RETRY][o["aux"]]
-            self.trg.report_tasks_status([inv.invocation_id], st)
+            self.trg.report_tasks_status([inv.invocation_id], InvocationStatus[STATUSES[o["aux"]]])
         elif k == 2:
             inv = self.invocation(idx, o["src"])
             self.drive(inv, ["PENDING", "RUNNING", "SUCCESS"])
@@ -177,6 +178,18 @@ class TrigWorld:
             inv = self.invocation(idx, o["src"])
             self.drive(inv, ["PENDING", "RUNNING", "FAILED"])
             self.trg.report_invocation_failure(inv, exc_type(o["aux"])(f"boom{o['n']}"))
+
+    def finish(self, f: dict):
+        """f = {idx, src, ok, aux, n}: a running source invocation ends through the orchestrator's own entry points
+        (set_invocation_result / set_invocation_exception): the status change AND the result / exception are reported
+        by the real code, nothing is suppressed"""
+        inv = self.invocation(f["idx"], f["src"])
+        self.drive(inv, ["PENDING", "RUNNING"])
+        rc = world.runner_ctx("r1")
+        if f["ok"]:
+            self.app.orchestrator.set_invocation_result(inv, f["n"], rc)
+        else:
+            self.app.orchestrator.set_invocation_exception(inv, exc_type(f["aux"])(f"boom{f['n']}"), rc)
 
     def drive(self, inv, statuses):
         """move a source invocation through real status changes without reporting them as occurrences"""
@@ -208,10 +221,36 @@ def payload_of(o: dict):
     if k == 0:
         return o["n"]
     if k == 1:
-        return f"{1000 + o['src']}:{['RUNNING', 'RETRY'][o['aux']]}"
+        return f"{1000 + o['src']}:{STATUSES[o['aux']]}"
     if k == 2:
         return o["n"]
     return f"{1000 + o['src']}:{exc_type(o['aux']).__name__}"
+
+
+def fin_occs(trigs, f: dict) -> list[dict]:
+    """the occurrences the statement sees in one finished invocation, for the conditions the configuration has:
+    its status change (SUCCESS / FAILED) and its result or its exception"""
+    conds = {c for t in trigs for c in t["conds"]}
+    base = 5 * f["idx"]
+    out = []
+    if base + 1 in conds:
+        out.append({"cid": base + 1, "src": f["src"], "aux": 2 if f["ok"] else 3, "n": f["n"]})
+    if f["ok"] and base + 2 in conds:
+        out.append({"cid": base + 2, "src": f["src"], "aux": 0, "n": f["n"]})
+    if not f["ok"] and base + 3 in conds:
+        out.append({"cid": base + 3, "src": f["src"], "aux": f["aux"], "n": f["n"]})
+    return out
+
+
+def expand_ops(trigs, ops) -> list:
+    """ops as the model and the oracle see them: every `fin` replaced by its elementary occurrences"""
+    out = []
+    for op in ops:
+        if op[0] == "fin":
+            out += [("occ", o) for o in fin_occs(trigs, op[1])]
+        else:
+            out.append(op)
+    return out
 
 
 # ------------------------------------------------------------------ model rendering
@@ -298,27 +337,77 @@ def gen_history(rng, trigs, klass: str) -> list:
     conds = sorted({c for t in trigs for c in t["conds"]})
     ser = Serial()
     ops = []
+
+    def clash(cs, chosen):
+        return klass == "clean" and any(per_occurrence_trigger(t) and c in t["conds"] and any(d in t["conds"] for d in chosen)
+                                        for c in cs for t in trigs)
     for _ in range(rng.randint(1, 4)):
-        chosen = []
+        chosen, acts = [], []
         for c in rng.sample(conds, len(conds)):
             if rng.random() < 0.6:
-                if klass == "clean" and any(per_occurrence_trigger(t) and c in t["conds"]
-                                            and any(d in t["conds"] for d in chosen) for t in trigs):
-                    continue
-                chosen.append(c)
-                if klass == "multi" and rng.random() < 0.6:
+                reps = 2 if klass == "multi" and rng.random() < 0.6 else 1
+                for _r in range(reps):
+                    # status / result / exception occurrences: half of them through a whole finished invocation (the
+                    # orchestrator reports the final status AND the result / exception of the same invocation)
+                    if c % 5 in (1, 2, 3) and rng.random() < 0.5:
+                        ok = (c % 5 == 2) if c % 5 != 1 else rng.random() < 0.5
+                        n = ser.next()
+                        f = {"idx": c // 5, "src": n, "ok": ok, "aux": 0 if ok else n, "n": n}
+                        cs = [o["cid"] for o in fin_occs(trigs, f)]
+                        if len(set(cs)) > 1 and (klass == "clean" and any(
+                                per_occurrence_trigger(t) and sum(1 for x in cs if x in t["conds"]) > 1 for t in trigs)):
+                            continue
+                        if clash(cs, chosen):
+                            continue
+                        chosen += cs
+                        acts.append(("fin", f))
+                        continue
+                    if clash([c], chosen):
+                        continue
                     chosen.append(c)
-        for c in chosen:
-            o = fresh_occ(c, ser)
-            if c % 5 == 1:
-                o["aux"] = rng.randint(0, 1)
-            if c % 5 == 3:
-                o["aux"] = o["n"]        # a distinct exception type per occurrence (same-type failures: targeted witness)
-            ops.append(("occ", o))
+                    o = fresh_occ(c, ser)
+                    if c % 5 == 1:
+                        o["aux"] = rng.randint(0, 1)
+                    if c % 5 == 3:
+                        o["aux"] = o["n"]    # a distinct exception type per occurrence (same-type failures: targeted witness)
+                    acts.append(("occ", o))
+        ops += acts
         ops.append(("iter",))
         if rng.random() < 0.3:
             ops.append(("adv", rng.choice([1, 10, 30])))
             ops.append(("iter",))
+    return ops
+
+
+def gen_burst(rng, trigs, batch: int) -> list:
+    """more occurrences pending than the configured batch size when a loop iteration runs: first `batch` (or more)
+    occurrences of one condition of every multi-condition AND trigger (they legitimately stay pending), then a burst
+    for the per-occurrence triggers, then the missing AND partners"""
+    ser = Serial()
+    ops = []
+    ands = [t for t in trigs if not per_occurrence_trigger(t)]
+    per = sorted({c for t in trigs if per_occurrence_trigger(t) for c in t["conds"]})
+
+    def occ(c):
+        o = fresh_occ(c, ser)
+        if c % 5 == 3:
+            o["aux"] = o["n"]
+        return ("occ", o)
+    for t in ands:
+        ops += [occ(t["conds"][0]) for _ in range(batch + rng.randint(0, 1))]
+    if ands:
+        ops.append(("iter",))
+    if per:
+        for _ in range(rng.randint(batch + 1, 2 * batch + 2)):
+            ops.append(occ(rng.choice(per)))
+        ops.append(("iter",))
+    for t in ands:
+        ops += [occ(c) for c in t["conds"][1:]]
+    if ands:
+        ops.append(("iter",))
+    if per:
+        ops.append(occ(rng.choice(per)))
+    ops.append(("iter",))
     return ops
 
 
@@ -329,6 +418,8 @@ def run_history_impl(w: TrigWorld, ops) -> dict:
     for op in ops:
         if op[0] == "occ":
             w.occurrence(op[1])
+        elif op[0] == "fin":
+            w.finish(op[1])
         elif op[0] == "adv":
             CLOCK.t = CLOCK.t + timedelta(seconds=op[1])
         else:
